@@ -60,7 +60,7 @@ def run(ctx):
                           planted_backend_x_place=fw.histogram("%s / %s" % (c["dist"]["backend"], "attempt response" if c["dist"].get("in_attempt") else "request")
                                                                for c in cases if c["kind"] in ("plant", "plantcz", "submit")),
                           planted_where=fw.histogram((c["dist"].get("where") or "").split("/")[0] + "/" + (c["dist"].get("where") or "").split(" ")[-1]
-                                                     for c in cases if c["kind"] in ("plant", "submit")),
+                                                     for c in cases if c["kind"] in ("plant", "plantcz", "submit")),
                           operations=sc.ophist(cases)),
         coq_shards=[dict(shard=i["shard"], n=i["n"], rc=i["rc"], wall_s=round(i["wall"], 1)) for i in infos],
     ), assumptions=[
